@@ -61,7 +61,7 @@ class Prop(PropBase):
         quick = tier == "quick"
         for _ in range(450 if quick else 12000):
             yield {"op": "one", "cls": rng.choice(sigs.CLASSES), "call": rng.choice(OPS),
-                   "layout": rng.choice(["contig", "strided", "readonly", "fortran", "shared", "nonfinite"]),
+                   "layout": rng.choice(["contig", "strided", "readonly", "fortran", "shared", "nonfinite", "lastmajor", "lastmajor"]),
                    "seed": rng.randrange(1 << 30)}
         for call in ("stft", "istft", "time_shift", "freq_shift", "coh", "to_intensity", "fast_len", "snippet_f", "ufunc", "tslice"):
             yield {"op": "one", "cls": "BasebandSignal", "call": call, "layout": "contig", "seed": rng.randrange(1 << 30),
@@ -116,6 +116,10 @@ class Prop(PropBase):
             data = big[::2]
         elif layout == "fortran":
             data = np.asfortranarray(big[:L])
+        elif layout == "lastmajor":
+            # the last sample axis slowest (polarisation-major buffers): data[..., k] is contiguous already, so a "make contiguous,
+            # then work in place" shortcut writes into the caller's buffer
+            data = sigs.relayout(np.ascontiguousarray(big[:L]), "lastmajor")
         else:
             data = np.ascontiguousarray(big[:L]) if base is None else big[:L]
         if layout == "nonfinite":
